@@ -197,3 +197,32 @@ fn c08_notify_wait_yields_blocked_on_the_notify() {
     });
 }
 }
+
+crate::with_fire_forbidden! {
+//@ props=C08 tier=quick fns=src/rt/notify.rs::Notify::wait,src/rt/notify.rs::State::might_spur,src/rt/path.rs::Path::branch_spurious,src/rt/mod.rs::yield_now bounded=threads:N=3 models=Execution::schedule=probe,Scheduler::switch=counting
+#[kani::proof]
+#[kani::unwind(8)]
+#[kani::stub(crate::rt::execution::Execution::schedule, crate::rt::execution::Execution::schedule_probe_model)]
+#[kani::stub(crate::rt::scheduler::Scheduler::switch, crate::rt::scheduler::verif_kani::switch_counting_model)]
+fn c08_notify_wait_spurious_return_consumes_nothing() {
+    // the single modelled spurious return: taken only if `spurious && !did_spur`, it must not consume a
+    // pending notification nor acquire anything, and it can happen at most once per Notify
+    let (mut ex, nt, _other) = notify_exec();
+    // replay a recorded Spurious branch whose choice is "spurious" (second iteration of the branch)
+    let path = crate::rt::path::verif_kani::path_with_spurious(true);
+    ex.path = ManuallyDrop::into_inner(path);
+    let old = set_view(&ex.threads);
+    let a = old.active.unwrap();
+    let oa = old.th[a];
+    let no = nv(&ex, &nt);
+    kani::assume(no.spurious && !no.did_spur && oa.yield_count < usize::MAX);
+    crate::rt::scheduler::verif_kani::with_ctx(&mut ex, || nt.wait(Location::disabled()));
+    let nn = nv(&ex, &nt);
+    let na = set_view(&ex.threads).th[a];
+    oblige!("C08.wait.spurious_return_marks_did_spur_so_it_happens_once", nn.did_spur && !(nn.spurious && !nn.did_spur));
+    oblige!("C08.wait.spurious_return_keeps_pending_notification", nn.notified == no.notified && vv_eq(&nn.sync, &no.sync));
+    oblige!("C08.wait.spurious_return_acquires_nothing", vv_eq(&na.causality, &oa.causality));
+    oblige!("C08.wait.spurious_return_yields", na.st == StView::Yield && schedule_calls() == 1);
+    reach!("c08_notify_wait_spurious");
+}
+}
